@@ -34,7 +34,7 @@ HASH_EXCEPTIONS = [
     (r"redis::executor::config_ops::ServerConfig::get_matching$", "vec-in-hash-order", "CONFIG GET reply order"),
     (r"redis::executor::key_ops::.*execute_keys$", "vec-in-hash-order", "KEYS reply order; compared as a set"),
     (r"replication::anti_entropy::AntiEntropyManager::get_keys_in_buckets$", "vec-in-hash-order",
-     "which keys are shipped first matters only when a divergent bucket set holds more than max_keys_per_sync (1000) keys; harness workloads stay below (assumption, stated)"),
+     "which keys are shipped first matters only when a divergent bucket set holds more than max_keys_per_sync (1000) keys; harness workloads stay below (condition checked: the default limit in AntiEntropyConfig::default() is still >= 1000; the harness workloads themselves are an assumption, stated)"),
     (r"replication::anti_entropy::StateDigest::from_state$", "push", "the per-bucket lists are sorted before the fold (condition checked: a sort call exists in from_state; decided by C18 R18.1)"),
 ]
 COND_COMMANDS = {"execute_acl_genpass": "AclGenPass", "RedisSet::(pop|pop_count)": "SPop", "CommandExecutor::execute$": "RandomKey"}
@@ -256,6 +256,8 @@ def _r203(ck, prog, cfg, seen, built):
                 cond = _cond_ok(fid, built)
                 if "sort call exists" in exc:
                     cond = any(is_callee(t, *hashorder.SORT) for g in [f] + prog.children(f) for _, t in g.calls())
+                if "max_keys_per_sync (1000)" in exc:
+                    cond = cond and _default_sync_limit(prog) >= 1000
                 if cond and r["kind"] == "vec-in-hash-order" and r.get("returned"):
                     # the order of the returned Vec is accepted as unobservable - which stops being true the moment a harness-reachable
                     # caller lets it meet the seeded RNG (one draw per element lands on a different element in every process)
@@ -493,3 +495,25 @@ def _compaction_clock_harmless(prog):
             if (wa and not is_logical(sb)) or (wb and not is_logical(sa)):
                 return False
     return True
+
+
+def _default_sync_limit(prog):
+    """the per-round key limit AntiEntropyConfig::default() configures (0 when it cannot be read: the exception then does not apply)"""
+    from . import bounds as _b
+    adt = prog.adts.get("replication::anti_entropy::AntiEntropyConfig")
+    if not adt:
+        return 0
+    idx = [i for i, x in enumerate(adt["variants"][0]["fields"]) if x["n"] == "max_keys_per_sync"]
+    if not idx:
+        return 0
+    best = None
+    for f in prog.lib_fns():
+        if "AntiEntropyConfig" not in f.id or not (f.d.get("implements") or "").endswith("Default::default"):
+            continue
+        for b, i, st in f.stmts():
+            rv = st["rv"]
+            if rv["k"] == "agg" and str(rv.get("n", "")).endswith("anti_entropy::AntiEntropyConfig") and len(rv.get("ops", [])) > idx[0]:
+                v = _b.const_val(f, rv["ops"][idx[0]])
+                if v is not None:
+                    best = v if best is None else min(best, v)
+    return best or 0
